@@ -10098,6 +10098,37 @@ let holds_C17 pre f post =
      (&&) ((&&) (ctx_eqb t.sctx t'.sctx) (ctx_eqb t.asctx t'.asctx))
        (btype_eqb t.active t'.active))
 
+(** val no_save_modes : dec_mode list -> bool **)
+
+let no_save_modes ms =
+  forallb (fun m ->
+    match m with
+    | SaveCursor -> false
+    | SaveCursorAltScreenBuffer -> false
+    | _ -> true) ms
+
+(** val holds_C17_switch : vt -> func -> vt -> bool **)
+
+let holds_C17_switch pre f post =
+  let t = pre.vterm in
+  let t' = post.vterm in
+  (match f with
+   | Decrst ms ->
+     if no_save_modes ms
+     then forallb (fun s ->
+            ctx_eqb (clamp_ctx (saved_of t' s) t'.cols t'.rows)
+              (clamp_ctx (saved_of t s) t'.cols t'.rows))
+            (Primary :: (Alternate :: []))
+     else true
+   | Decset ms ->
+     if no_save_modes ms
+     then forallb (fun s ->
+            ctx_eqb (clamp_ctx (saved_of t' s) t'.cols t'.rows)
+              (clamp_ctx (saved_of t s) t'.cols t'.rows))
+            (Primary :: (Alternate :: []))
+     else true
+   | _ -> true)
+
 (** val holds_C17_resize : vt -> vt -> bool **)
 
 let holds_C17_resize pre post =
